@@ -469,4 +469,102 @@ theorem packWithPrefix_written (arr : Bytes) (len : Nat) (msg : Bytes) :
     List.drop_of_length_le (by omega), List.nil_append, ← List.append_assoc]
   exact List.take_left' (by simp only [List.length_append, hP]; omega)
 
+/-! ### Request side: what is written to the upstream is the packed request -/
+
+@[simp] theorem length_packBufferInto (spare : Nat) (b packed : Bytes) :
+    (packBufferInto spare b packed).length = b.length := by
+  unfold packBufferInto; split <;> simp
+
+theorem length_be16Bytes (n : Nat) : (be16Bytes n).length = 2 := rfl
+
+/-- Reading back `data.length` bytes after `copy(b, data)` gives `data`. -/
+theorem take_overwrite_self (b data : Bytes) (h : data.length ≤ b.length) :
+    (overwrite b data).take data.length = data := by
+  rw [take_overwrite b data _ (Nat.le_refl _) h, List.take_of_length_le (Nat.le_refl _)]
+
+theorem packReq_udp (spare : Nat) (buf packed : Bytes) :
+    packReq spare false buf packed =
+      if buf.length < packed.length then none
+      else some (packed.length, overwrite (packBufferInto spare buf packed) packed) := by
+  simp [packReq]
+
+theorem packReq_tcp (spare : Nat) (buf packed : Bytes) :
+    packReq spare true buf packed =
+      if buf.length < packed.length + 2 then none
+      else some (packed.length + 2,
+        be16Bytes packed.length ++ overwrite (packBufferInto spare (buf.drop 2) packed) packed) := by
+  simp [packReq]
+
+theorem packReq_sent (spare : Nat) (tcp : Bool) (buf packed : Bytes) (r : Nat × Bytes)
+    (h : packReq spare tcp buf packed = some r) : sentReq r = frameReq tcp packed := by
+  cases tcp
+  · rw [packReq_udp] at h
+    by_cases hfit : buf.length < packed.length
+    · rw [if_pos hfit] at h; cases h
+    · rw [if_neg hfit] at h
+      injection h with h
+      subst h
+      simp only [sentReq, frameReq, Bool.false_eq_true, if_false]
+      exact take_overwrite_self _ _ (by rw [length_packBufferInto]; omega)
+  · rw [packReq_tcp] at h
+    by_cases hfit : buf.length < packed.length + 2
+    · rw [if_pos hfit] at h; cases h
+    · rw [if_neg hfit] at h
+      injection h with h
+      subst h
+      simp only [sentReq, frameReq, if_true]
+      have key : ∀ X : Bytes, (be16Bytes packed.length ++ X).take (packed.length + 2) =
+          be16Bytes packed.length ++ X.take packed.length := fun X => by
+        have := List.take_length_add_append (l₁ := be16Bytes packed.length) (l₂ := X) (i := packed.length)
+        rw [length_be16Bytes, Nat.add_comm] at this
+        exact this
+      rw [key]
+      congr 1
+      exact take_overwrite_self _ _ (by rw [length_packBufferInto, List.length_drop]; omega)
+
+theorem packReq_isSome (spare : Nat) (tcp : Bool) (buf packed : Bytes) :
+    (packReq spare tcp buf packed).isSome = decide (packed.length + (if tcp then 2 else 0) ≤ buf.length) := by
+  unfold packReq
+  by_cases h : buf.length < packed.length + (if tcp then 2 else 0)
+  · rw [if_pos h]; simp only [Option.isSome_none]; symm; rw [decide_eq_false_iff_not]; omega
+  · rw [if_neg h]; simp only [Option.isSome_some]; symm; rw [decide_eq_true_iff]; omega
+
+theorem packReq_length (spare : Nat) (tcp : Bool) (buf packed : Bytes) (r : Nat × Bytes)
+    (h : packReq spare tcp buf packed = some r) : r.2.length = buf.length := by
+  cases tcp
+  · rw [packReq_udp] at h
+    by_cases hfit : buf.length < packed.length
+    · rw [if_pos hfit] at h; cases h
+    · rw [if_neg hfit] at h
+      injection h with h
+      subst h
+      simp only [length_overwrite, length_packBufferInto]
+  · rw [packReq_tcp] at h
+    by_cases hfit : buf.length < packed.length + 2
+    · rw [if_pos hfit] at h; cases h
+    · rw [if_neg hfit] at h
+      injection h with h
+      subst h
+      simp only [List.length_append, length_be16Bytes, length_overwrite,
+        length_packBufferInto, List.length_drop]
+      omega
+
+/-- What `packReq` + `Write` put on the wire, in closed form: a function of the buffer's LENGTH and
+the packed request only. -/
+theorem packReq_map_sent (spare : Nat) (tcp : Bool) (buf packed : Bytes) :
+    (packReq spare tcp buf packed).map sentReq =
+      if packed.length + (if tcp then 2 else 0) ≤ buf.length then some (frameReq tcp packed) else none := by
+  have hs := packReq_isSome spare tcp buf packed
+  cases h : packReq spare tcp buf packed with
+  | none =>
+    rw [h] at hs
+    have : ¬ packed.length + (if tcp then 2 else 0) ≤ buf.length := by
+      intro hc; rw [decide_eq_true hc] at hs; cases hs
+    rw [if_neg this]; rfl
+  | some r =>
+    rw [h] at hs
+    have : packed.length + (if tcp then 2 else 0) ≤ buf.length := by
+      apply Classical.byContradiction; intro hc; rw [decide_eq_false hc] at hs; cases hs
+    rw [if_pos this, Option.map_some, packReq_sent spare tcp buf packed r h]
+
 end Agd.Buffers
